@@ -153,19 +153,22 @@ def corner_grammar(draw, V, N, max_rules):
 
 @st.composite
 def cycle_grammar(draw, V, N):
-    """Third grammar family ("left-corner cycles"): k >= 3 nonterminals form a cycle X0 -> X1 ... -> X0 in
+    """Third grammar family ("left-corner cycles"): k >= 2 nonterminals form a cycle X0 -> X1 ... -> X0 in
     the left-corner graph (each step a unary rule or a left-recursive rule X -> Y t), with exits,
     further left corners outside the cycle, and rules that enter the cycle in the middle after a token.
     Indirect left recursion through unary rules is where memoised closures and agenda orders go wrong."""
     S = N[0]
     order = draw(st.permutations(N))
-    k = draw(st.integers(3, len(N)))
+    k = draw(st.integers(2, len(N)))
     cyc, others = list(order[:k]), list(order[k:])
     rules = []
     for i, X in enumerate(cyc):
         body = [cyc[(i + 1) % k]]
-        if draw(st.integers(0, 9)) < 5:
+        r = draw(st.integers(0, 9))
+        if r < 4:
             body.append(draw(st.sampled_from(V)))
+        elif r < 6:
+            body.append(draw(st.sampled_from(cyc)))  # X -> Y Y', e.g. S -> B B with B -> S
         rules.append([X, body])
     for X in cyc:
         r = draw(st.integers(0, 9))
